@@ -16,6 +16,7 @@ ASSUMPTIONS = [
 ]
 SPEC = {
     'quick': [('K20', 'std', 3),
+              ('lasso3', 'K0', 'reidx', 20),
               ('K27', 'small', 3),
               ('K0p', 'small', 3),
               ('K1', 'ar', 7),
